@@ -394,7 +394,7 @@ func (p *Program) Explore(h *Harness) *Report {
 			work = append(work, e.forks...)
 			for _, v := range e.violations {
 				key := v.Kind + "|" + v.Label
-				if len(v.Inputs) > 0 && (!seenViol[key] || len(rep.Violations) < 30) {
+				if v.HasModel && (!seenViol[key] || len(rep.Violations) < 30) {
 					rep.Violations = append(rep.Violations, v)
 					seenViol[key] = true
 				}
